@@ -373,6 +373,117 @@ def eval_depths(case):
     return ev
 
 
+# ------------------------------------------------------------------ the lazy report when a coercion fails midway
+
+
+@st.composite
+def strat_lazy_coerce(draw):
+    """A dataframe pair with row-level violations (tighten), an Index(int64, coerce=True) and one numeric column
+    with coerce=True holding a cell that cannot be coerced.  Two variants of the data are derived: index labels as
+    digit strings (the schema has to coerce them) and the same labels as integers (coerced by hand beforehand)."""
+    import copy
+
+    base = draw(gen.case_strategy(allow_dup_labels=False, allow_frame_checks=False))
+    case = copy.deepcopy(gen.repair(base))
+    for _ in range(draw(st.integers(0, 2))):
+        case = draw(gen.tighten(case, ops=gen.ROW_OPS))
+    spec, table = case["spec"], case["table"]
+    if spec.get("kind", "dataframe") != "dataframe":
+        return {"skip": "not-a-dataframe-pair"}
+    n = sp.table_nrows(table)
+    tcs = {c["name"]: c for c in table["columns"]}
+    cands = [c for c in spec["columns"] if not c.get("regex") and c["name"] in tcs and c.get("dtype") in ("int64", "float64")
+             and tcs[c["name"]]["phys"] in ("int64", "float64") and tcs[c["name"]]["cells"]]
+    if n == 0:
+        return {"skip": "empty"}
+    labels = draw(st.lists(st.integers(-3, 30), min_size=n, max_size=n, unique=draw(st.booleans())))
+    spec["index"] = {"name": None, "dtype": "int64", "nullable": False, "unique": False, "coerce": True,
+                     "checks": [{"kind": "greater_than_or_equal_to", "args": {"min_value": draw(st.integers(-3, 12))}}]
+                     if draw(st.booleans()) else []}
+    table["index"] = {"name": None, "phys": "int64", "cells": labels}
+    bad_col = None
+    if cands and draw(st.integers(0, 4)) > 0:
+        c = draw(st.sampled_from(cands))
+        t = tcs[c["name"]]
+        i = draw(st.integers(0, len(t["cells"]) - 1))
+        t["cells"] = [draw(st.sampled_from(["x", "1.5.1", ""])) if j == i else (None if v is None else str(v))
+                      for j, v in enumerate(t["cells"])]
+        t["phys"] = "object"
+        c["coerce"] = True
+        bad_col = c["name"]
+    if draw(st.integers(0, 5)) == 0:
+        spec["coerce"] = True
+    return {"spec": spec, "table": table, "bad_col": bad_col}
+
+
+def _coercion_entry(cid):
+    return isinstance(cid, tuple) and cid[0] == "other" and str(cid[1]).startswith("coerce_dtype")
+
+
+def eval_lazy_coerce(case):
+    """Metamorphic: coercing a coercible index by hand before validating does not change what lazy validation
+    reports (same errors, same cells under the same - coerced - row labels).  The labels of the cells a *failed*
+    coercion names are those of the data as it was when the coercion ran; they are compared up to int(label)."""
+    import copy
+
+    ev = Eval()
+    if case.get("skip"):
+        ev.skipped = case["skip"]
+        return ev
+    spec, table = case["spec"], case["table"]
+    t_str = copy.deepcopy(table)
+    t_str["index"]["phys"], t_str["index"]["cells"] = "object", [str(v) for v in table["index"]["cells"]]
+    schema = sp.pandas_schema(spec)
+    outs = {}
+    for name, t in (("by-hand", table), ("by-schema", t_str)):
+        data = sp.pandas_frame(t)
+        o = fp.outcome(lambda: schema.validate(data, lazy=True))
+        if o["kind"] in ("internal", "usage"):
+            ev.labels.append("internal-or-usage-outcome")
+            return ev
+        outs[name] = o
+    a, b = outs["by-hand"], outs["by-schema"]
+    ev.labels.append("lazy_coerce:" + a["kind"])
+    if case.get("bad_col"):
+        ev.labels.append("lazy_coerce:column-coercion-fails")
+    if a["kind"] != b["kind"]:
+        ev.add("index-coerced-by-schema-changes-verdict", {"by-hand": a["kind"], "by-schema": b["kind"],
+                                                           "by-schema-reasons": b.get("reasons")})
+        return ev
+    if a["kind"] == "ok":
+        return ev
+
+    def ids(o):
+        return sorted((getattr(x.reason_code, "name", str(x.reason_code)), repr(getattr(x.schema, "name", None)),
+                       str(x.check)) for x in o["exc"].schema_errors)
+
+    def cells(o):
+        out = Counter()
+        for (ctx, col, cid, lab, val), k in reported_cells(o["exc"].failure_cases).items():
+            if _coercion_entry(cid) and isinstance(lab, tuple) and lab[0] == "s":
+                try:
+                    lab = ("n", float(int(lab[1])))
+                except ValueError:
+                    pass
+            out[(ctx, repr(col), repr(cid), lab, val)] += k
+        return out
+
+    ev.nontrivial = bool(case.get("bad_col")) and len(a["exc"].schema_errors) >= 2
+    if ev.nontrivial:
+        ev.labels.append("lazy_coerce:failed-coercion-plus-other-errors")
+    if ids(a) != ids(b):
+        ev.add("index-coerced-by-schema-changes-lazy-errors", {"by-hand": ids(a)[:8], "by-schema": ids(b)[:8]})
+        return ev
+    ca, cb = cells(a), cells(b)
+    if ca != cb:
+        ev.add("index-coerced-by-schema-changes-reported-cells", {"only-by-hand": list((ca - cb).items())[:5],
+                                                                  "only-by-schema": list((cb - ca).items())[:5]})
+    if dict(a["exc"].error_counts) != dict(b["exc"].error_counts):
+        ev.add("index-coerced-by-schema-changes-error-counts", {"by-hand": dict(a["exc"].error_counts),
+                                                                "by-schema": dict(b["exc"].error_counts)})
+    return ev
+
+
 FAMILIES = [
     Family("report", evaluate, strategy=strategy, n_quick=1200, n_thorough=5000, shards_quick=4, shards_thorough=16,
            required_labels=["multi-reason", "both-accept", "kind=series"]),
@@ -383,6 +494,10 @@ from . import plx  # noqa: E402
 FAMILIES.append(
     Family("depths", eval_depths, strategy=strategy, n_quick=600, n_thorough=3000, shards_quick=3, shards_thorough=12,
            required_labels=["SCHEMA_ONLY:reject", "DATA_ONLY:reject", "DATA_ONLY:accept"]))
+
+FAMILIES.append(
+    Family("lazy_coerce", eval_lazy_coerce, strategy=strat_lazy_coerce, n_quick=500, n_thorough=3000, shards_quick=2,
+           shards_thorough=8, required_labels=["lazy_coerce:failed-coercion-plus-other-errors", "lazy_coerce:ok"]))
 
 FAMILIES.append(
     Family("polars_report", plx.eval_c02, strategy=lambda: plx.strat_case(parsers="none", containers=("df", "df", "lf_full"), nan_rate=2),
